@@ -63,13 +63,13 @@ macro_rules! with_workload {
 /// (quick runs, thorough runs, quick wall cap s, thorough wall cap s)
 fn plan_for(id: &str) -> (u64, u64, u64, u64) {
     match id {
-        "C11" => (600, 40000, 300, 2400),
-        "C06" | "C07" | "C08" | "C13" | "C14" => (1500, 80000, 300, 2400),
-        "C10" => (1000, 50000, 300, 2400),
-        "C09" => (800, 40000, 300, 2400),
+        "C11" => (5000, 60000, 300, 2400),
+        "C06" | "C07" | "C08" | "C13" | "C14" => (12000, 150000, 300, 2400),
+        "C10" => (6000, 100000, 300, 2400),
+        "C09" => (6000, 80000, 300, 2400),
         "C19" => (0, 0, 600, 3000),
-        "C17" => (3000, 150000, 300, 2400),
-        "C18" => (3000, 150000, 300, 2400),
+        "C17" => (12000, 200000, 300, 2400),
+        "C18" => (15000, 300000, 300, 2400),
         _ => (100, 1000, 300, 2400),
     }
 }
